@@ -25,7 +25,8 @@ def model_attrs(ck):
 # ------------------------------------------------------------------------------------------------
 FOREIGN = [("doc", '#[doc = "d%d"]'), ("doc", "/// c%d\n"), ("allow", "#[allow(dead_code, unused%d)]"), ("cfg_attr", "#[cfg_attr(all(), allow(unused%d))]"),
            ("serde", "#[serde(rename = \"r%d\")]"), ("path_attr", "#[my::tool(%d)]"), ("deny", "#[deny(unused%d)]"), ("must_use", "#[must_use = \"m%d\"]")]
-FOREIGN += [("path_debug", "#[my::debug(%d)]"), ("path_default", "#[serde::default = %d]"), ("path_derive_ex", "#[x::derive_ex(Clone, %d)]"),
+FOREIGN += [("path_derive_ex_list", "#[::derive_ex::derive_ex(Not(bound(u8: Q%d, ..)))]"), ("path_derive_ex_list2", "#[derive_ex::derive_ex(BitXorAssign(bound(u8: Q%d, ..)))]"),
+            ("path_debug", "#[my::debug(%d)]"), ("path_default", "#[serde::default = %d]"), ("path_derive_ex", "#[x::derive_ex(Clone, %d)]"),
             ("path_ord", "#[::tools::ord(%d)]"), ("path_hash", "#[a::b::hash(%d)]")]
 TYPE_FOREIGN = FOREIGN + [("repr", "#[repr(C, align(%d))]"), ("non_exhaustive", "#[non_exhaustive]%.0s")]
 
@@ -47,6 +48,16 @@ def helper_attr(name, target, uid, rnd):
         arg = rnd.choice(["", "ignore, "]) if name != "hash" else rnd.choice(["", "ignore, "])
         return "#[%s(%s%s)]" % (name, arg, b)
     return "#[%s(%s)]" % (name, b)
+
+
+def redelimit(attr, rnd):
+    """`#[name(args)]` -> `#[name[args]]` / `#[name{args}]` now and then: the delimiter of an attribute's argument list is free"""
+    r = rnd.random()
+    if r > 0.2 or not attr.endswith(")]") or "(" not in attr:
+        return attr
+    i = attr.index("(")
+    o, c = ("[", "]") if r < 0.1 else ("{", "}")
+    return attr[:i] + o + attr[i + 1:-2] + c + "]"
 
 
 def c14_item(rnd, kind, uid0):
@@ -71,9 +82,9 @@ def c14_item(rnd, kind, uid0):
                 if nm in seen_helpers:
                     continue      # a helper attribute may be given once per position
                 seen_helpers.add(nm)
-                out.append((nm, helper_attr(nm, target, nxt(), rnd)))
+                out.append((nm, redelimit(helper_attr(nm, target, nxt(), rnd), rnd)))
             elif allow_derive_ex:
-                out.append(("derive_ex", "#[derive_ex(bound(u8: Q%d, ..))]" % nxt()))
+                out.append(("derive_ex", redelimit("#[derive_ex(bound(u8: Q%d, ..))]" % nxt(), rnd)))
         return out
     item = {"kind": kind, "type_attrs": attrs_for("type", False), "variants": []}
     nv = 1 if kind == "struct" else rnd.choice([1, 2, 3])
@@ -89,15 +100,19 @@ def c14_item(rnd, kind, uid0):
 
 def c14_src(item, extra_type_attrs="", vis="pub", generics="<T>", where="where T: Copy", disc=False):
     ta = " ".join(a for _, a in item["type_attrs"]) + " " + extra_type_attrs
+    # items without a type parameter: non-generic, or a lifetime parameter only
+    t0 = "T" if "T" in generics else ("&'a u8" if "'a" in generics else "u16")
+    if "T" not in generics:
+        where = ""
 
     def fields(v):
         fs = []
         for j, f in enumerate(v["fields"]):
             at = " ".join(a for _, a in f["attrs"])
             if v["shape"] == "named":
-                fs.append("%s pub(crate) g%d: %s" % (at, j, "T" if j == 0 else "u8"))
+                fs.append("%s pub(crate) g%d: %s" % (at, j, t0 if j == 0 else "u8"))
             else:
-                fs.append("%s %s" % (at, "T" if j == 0 else "u8"))
+                fs.append("%s %s" % (at, t0 if j == 0 else "u8"))
         if v["shape"] == "named":
             return "{ %s }" % ", ".join(fs)
         if v["shape"] == "tuple":
@@ -160,7 +175,7 @@ def c14(tier):
             if extra:
                 D = D + [re.search(r"\((\w+)\)", extra).group(1)]
         src = c14_src(item, extra_type_attrs=extra, vis=rnd.choice(["pub", "pub(crate)", ""]),
-                      generics=rnd.choice(["<T>", "<T = u8>", "<'a, T: 'a + Copy, const N: usize = 3>"]),
+                      generics=rnd.choice(["<T>", "<T = u8>", "<'a, T: 'a + Copy, const N: usize = 3>", "", "<'a>", "<const N: usize>"]),
                       where=rnd.choice(["", "where T: Copy"]), disc=rnd.random() < 0.3)
         cases.append({"item": item, "D": D, "args": args, "src": src, "lists_ok": lists_ok, "extra": extra})
     # misplaced comparison argument on the type: whole failure after the lists were read
@@ -232,7 +247,10 @@ def c14(tier):
                 pos = [{"names": nm, "kept": []} for nm in names]
         else:
             pos = [{"names": nm, "kept": []} for nm in names]
-        events.append({"ev": "strip", "D": c["D"], "lists_ok": c["lists_ok"], "item_present": bool(present), "skeleton_equal": skel, "pos": pos})
+        # what was generated: only traits the lists name (an attribute that merely LOOKS like derive_ex's - a path ending in
+        # `derive_ex` - is foreign: it stays, and nothing is generated for it)
+        gen = sorted(set((x.get("trait") or "").split("::")[-1] for x in rout.get("items", [])[1:] if x["kind"] == "impl"))
+        events.append({"ev": "strip", "D": c["D"], "lists_ok": c["lists_ok"], "item_present": bool(present), "skeleton_equal": skel, "pos": pos, "generated": gen})
         keep.append(i)
     # impl items are re-emitted token for token
     impl_srcs = ["impl ::core::ops::Add<X> for X { type Output = X; #[inline] fn add(self, r: X) -> X { X(self.0 + r.0) } }",
@@ -406,6 +424,21 @@ def c15(tier):
                             return add(entry, l if entry == "attr" else "", it if entry == "attr" else "#[derive_ex(%s)] %s" % (l, it))
                         plan.append(("split", two("%s, %s" % (A, b), B), one("%s(%s), %s" % (A, b, B)), None))
                         plan.append(("split", two(B, "%s, %s" % (A, b)), one("%s, %s(%s)" % (B, A, b)), None))
+    # the impl of B with its OWN bound(...) argument does not depend on what else is derived (nor on that trait's arguments)
+    cl = ["Clone", "Debug", "PartialEq", "Hash", "Deref", "DerefMut", "Neg", "AddAssign"]
+    for it in ("struct X<T>(T);", "struct X<T> { a: T }"):
+        for b in ("bound(T: ::core::marker::Copy)", "bound()", "bound(T: ::core::marker::Copy, ..)"):
+            for B in cl:
+                for A in cl:
+                    if A == B:
+                        continue
+                    for Aarg in ("", "(bound(T: ::core::fmt::Debug))"):
+                        x = add("derive", "", "#[derive_ex(%s(%s))] %s" % (B, b, it))
+                        lst = ["%s%s" % (A, Aarg), "%s(%s)" % (B, b)]
+                        if (len(plan) % 2) == 0:
+                            lst.reverse()
+                        y = add("derive", "", "#[derive_ex(%s)] %s" % (", ".join(lst), it))
+                        plan.append(("coderived_plain", x, y, B))
     resps = dx.expand(reqs)
     events = []
     for rel, x, y, extra in plan:
@@ -496,6 +529,20 @@ def c19(tier):
             lists.append({"traits": [{"t": t, "dump": rnd.random() < 0.35, "b": rnd.choice(["", "", "", "bound()", "bound(..)", "bound(u8: Copy)", "bound(u8: Copy, ..)"])} for t in part],
                           "dump": rnd.random() < 0.25})
         cases.append((kind, src, lists))
+    # every ordered pair of traits, both dumped (per trait / through the shared flag), on a single-field struct and on an enum
+    for kind, src, pool in (("struct", "struct X(u8);", ALL_TRAITS), ("enum", "enum X { #[default] A, B(u8) }", ENUM_TRAITS)):
+        for A in pool:
+            for B in pool:
+                if A == B:
+                    continue
+                mode = (pool.index(A) + pool.index(B)) % 3
+                if mode == 0:
+                    lists = [{"traits": [{"t": A, "dump": True, "b": ""}, {"t": B, "dump": True, "b": ""}], "dump": False}]
+                elif mode == 1:
+                    lists = [{"traits": [{"t": A, "dump": False, "b": ""}, {"t": B, "dump": False, "b": ""}], "dump": True}]
+                else:
+                    lists = [{"traits": [{"t": A, "dump": True, "b": ""}], "dump": False}, {"traits": [{"t": B, "dump": True, "b": ""}], "dump": True}]
+                cases.append((kind, src, lists))
 
     def render(lists, with_dump):
         parts = []
